@@ -52,6 +52,20 @@ ENTITY_FRAGS = ["&#+65;", "&# 65;", "&#6_5;", "&#x0x41;", "&#x 41;", "&#-0;", "&
 ENTITY_FRAGS_ENABLED = True
 if ENTITY_FRAGS_ENABLED or os.environ.get("VERIF_C09_ENTITY_FRAGS") == "1":
     FRAGS = FRAGS + ENTITY_FRAGS
+# entity-ENCODED spellings (named / decimal / hex, zero padded, mixed case) of the opaque tags' own syntax and of other markup.
+# Inside nowiki/pre they decode to text that LOOKS like markup; the property says it stays text (decoded once, nothing that only
+# exists after decoding is interpreted or removed).  Inside math/source/syntaxhighlight/timeline they stay as written.
+ENCODED_FRAGS = [
+    "&lt;nowiki&gt;", "&lt;/nowiki&gt;", "&#60;NOWIKI&#62;", "&#60;/NOWIKI&#62;", "&#x3c;nowiki&#x3E;", "&#X3C;/NoWiki&#062;",
+    "&lt;nowiki&gt;[[x]]&lt;/nowiki&gt;", "&#x3C;nowiki&#x3E;n&#x3C;/nowiki&#x3E;", "&lt;nowiki/&gt;",
+    "&lt;pre&gt;", "&lt;/pre&gt;", "&#60;/PRE&#62;", "&lt;math&gt;x&lt;/math&gt;", "&lt;/math&gt;", "&#60;/source&#62;", "&lt;/syntaxhighlight&gt;",
+    "&lt;/timeline&gt;", "&lt;ref&gt;r&lt;/ref&gt;", "&lt;b&gt;x&lt;/b&gt;", "&#60;br/&#62;", "&lt;!-- c --&gt;", "&#60;!--", "--&#62;",
+    "&lt;noinclude&gt;x&lt;/noinclude&gt;", "&#60;includeonly&#62;",
+    "&#91;&#91;Link&#93;&#93;", "&#x5b;&#x5B;a&#124;b&#x5d;&#x5D;", "&#123;&#123;c&#125;&#125;", "&#x7b;&#x7B;&#x7b;1&#x7D;&#x7d;&#x7D;",
+    "&#39;&#39;i&#39;&#39;", "&#x27;&#x27;&#x27;b&#x27;&#x27;&#x27;", "&#10;* li", "&#x0A;== h ==&#x0a;", "&#123;&#124;", "&#126;&#126;&#126;&#126;",
+    "&amp;lt;nowiki&amp;gt;", "&amp;lt;/nowiki&amp;gt;", "&#38;#60;", "&amp;#x5B;&#x26;#x5b;", "&#x7f;", "&#127;UNIQ",
+]
+FRAGS = FRAGS + ENCODED_FRAGS
 FRAG_CLASS = {}
 for _f in FRAGS:
     if "include" in _f:
@@ -79,6 +93,15 @@ CONTEXTS = {
     "tbody": ("QC {{tb|ARG}} QD", "body"),
     "twice": ("QA %s QM @2 QB", False),          # @2 = a second region of the same tag
     "twice+db": ("* QA %s QM {{echo|@2}} QB", True),
+    # transclusion through <pages index=.. from=.. to=../> (ParseUniq.create_pages: a second expander with its own marker table).
+    # dbmode = {page title: text}; the region sits in a transcluded page; @2 = other regions of the SAME tag: in the article
+    # (so that the article's table has regions of the same kind and running number 0, 1 as the transcluded pages' table), in an
+    # earlier page of the same range, both, or none.
+    "pages": ('QC <pages index="R" from=1 to=1 /> QD', {"R/1": "QA %s QB"}),
+    "pages+outer": ('QE @2 QC <pages index="R" from=1 to=1 /> QD', {"R/1": "QA %s QB"}),
+    "pages+outer2": ('* QE @2 QF @2\n<pages index="R" from=1 to=2 />\nQD', {"R/1": "QG @2 QH", "R/2": "QA %s QB"}),
+    "pages+after": ('QC <pages index="R" from=2 to=2 /> QD @2', {"R/2": "{{echo|QA %s QB}}"}),
+    "pages-by-title": ('@2 QC <pages from="R/1" to="R/1" /> QD', {"R/1": "QA %s QB"}),
 }
 THOROUGH_CONTEXTS = {
     "heading": ("== QA %s QB ==\ntext", False),
@@ -97,6 +120,11 @@ THOROUGH_CONTEXTS = {
     "pre-sp": (" QA %s QB\n", False),
     "ref": ("QC<ref>QA %s QB</ref>", False),
     "ref+db": ("QC<ref>QA %s QB</ref>", True),
+    "pages-in-ref": ('@2 QC<ref>QE <pages index="R" from=1 to=1 /> QF</ref>', {"R/1": "QA %s QB"}),
+    "ref-in-pages": ('QE @2 <pages index="R" from=1 to=1 /> QD', {"R/1": "QC<ref>QA %s QB</ref> @2"}),
+    "pages-in-pages": ('@2 QC <pages index="R" from=1 to=1 /> QD', {"R/1": 'QE @2 <pages index="S" from=1 to=1 /> QF', "S/1": "QA %s QB"}),
+    "pages-tagfn": ('@2 QC {{#tag:pages||index=R|from=1|to=1}} QD', {"R/1": "QA %s QB"}),
+    "pages-cell": ('{|\n|-\n| @2 || <pages index="R" from=1 to=1 />\n|}', {"R/1": "{|\n|-\n| QA %s QB\n|}"}),
 }
 BASE_DB = {"echo": "({{{1}}})", "c": "CCC", "Template:c": "CCC"}
 
@@ -126,10 +154,18 @@ def tag_text(tag, attrs, body, variant):
 
 def make_case(i, tag, attrs, body, variant, ctx, contexts):
     tmpl, dbmode = contexts[ctx]
-    tmpl = tmpl.replace("@2", "<%s>''QZ''</%s>" % (tag, tag))
+    other = "<%s>''QZ''</%s>" % (tag, tag)
+    tmpl = tmpl.replace("@2", other)
     T = tag_text(tag, attrs, body, variant)
     Tp = tag_text(tag, attrs, PH, variant)
-    if dbmode == "body":
+    if isinstance(dbmode, dict):       # the region is in a page of the wiki database (reached through <pages>)
+        db, dbp = dict(BASE_DB), dict(BASE_DB)
+        for title, text in dbmode.items():
+            text = text.replace("@2", other)
+            for d, t in ((db, T), (dbp, Tp)):
+                d[title] = d["Page:" + title] = text.replace("%s", t)
+        raw = rawp = tmpl
+    elif dbmode == "body":
         db = dict(BASE_DB, tb="QA %s QB" % T)
         dbp = dict(BASE_DB, tb="QA %s QB" % Tp)
         raw = rawp = tmpl
@@ -165,7 +201,7 @@ def gen_search_cases(rng, tier):
             for ctx in contexts:
                 if tier == "quick" and rng.random() < 0.72:
                     continue
-                if ctx.startswith("ref") and closes("ref", fr):
+                if "ref" in ctx and closes("ref", fr):
                     continue      # the enclosing <ref> region would end there (leftmost region wins, as in MediaWiki)
                 if ctx == "caption" and tag != "nowiki":
                     continue      # find_caption ends the caption at any non-text token (context limitation, not body dependent)
@@ -180,11 +216,88 @@ def gen_search_cases(rng, tier):
         attrs = rng.choice(ATTRS)
         variant = rng.choice(["plain", "plain", "plain", "upper", "mixed", "space"])
         ctx = rng.choice(ctxs)
-        if (ctx == "caption" and tag != "nowiki") or (ctx.startswith("ref") and closes("ref", body)):
+        if (ctx == "caption" and tag != "nowiki") or ("ref" in ctx and closes("ref", body)):
             ctx = "cell"
         cases.append(make_case(i, tag, attrs, body, variant, ctx, contexts))
         i += 1
+    # 3. entity-ENCODED markup: a markup string m (one paired construct, or 1..2 fragments) whose special characters are written
+    #    as character references (per character: named / decimal / hex / padded, random letter case of the tag names in it).
+    #    nowiki/pre must deliver m itself as TEXT; the other tags the encoded spelling untouched.
+    #    systematic: every paired construct x 4 uniform styles x every tag; nowiki/pre in the core contexts always, the rest sampled
+    core = ("top", "targ", "cell", "tbody", "pages+outer")
+    for tag in OPAQUE:
+        for m in ENC_PAIRED:
+            for style in ENC_STYLES:
+                body = encode_markup(None, m, style, 1.0)
+                if closes(tag, body):
+                    continue
+                for ctx in contexts:
+                    always = tag in ("nowiki", "pre") and ctx in core and style in ("named", "dec")
+                    if not always and tier == "quick" and rng.random() < (0.9 if tag in ("nowiki", "pre") else 0.97):
+                        continue
+                    if ("ref" in ctx and closes("ref", m)) or (ctx == "caption" and tag != "nowiki"):
+                        continue
+                    cases.append(make_case(i, tag, "", body, "plain", ctx, contexts))
+                    i += 1
+    #    random: partially / mixed-style encoded concatenations, with plain text and real markup around them
+    plain = [f for f in FRAGS if f not in ENCODED_FRAGS]
+    for _ in range(700 if tier == "quick" else 20000):
+        tag = rng.choice(["nowiki", "pre", "pre", rng.choice(OPAQUE)])
+        while True:
+            parts = []
+            for _k in range(rng.randint(1, 3)):
+                m = rng.choice(ENC_PAIRED) if rng.random() < 0.5 else "".join(rng.choice(plain) for _j in range(rng.randint(1, 2)))
+                r = rng.random()
+                parts.append(encode_markup(rng, m, rng.choice(ENC_STYLES + ("mixed", "mixed")), 1.0 if r < 0.6 else 0.6) if r < 0.85 else m)
+            body = "".join(parts)
+            if body and not closes(tag, body) and "\x7f" not in body and PH not in body:
+                break
+        ctx = rng.choice(ctxs)
+        if (ctx == "caption" and tag != "nowiki") or ("ref" in ctx and closes("ref", body)):
+            ctx = "cell"
+        cases.append(make_case(i, tag, rng.choice(ATTRS), body, rng.choice(["plain", "plain", "upper"]), ctx, contexts))
+        i += 1
     return cases
+
+
+# paired / complete constructs whose encoded spelling must stay text inside nowiki/pre (the opaque tags' own syntax first)
+ENC_PAIRED = ["<nowiki>n</nowiki>", "<nowiki>[[x]]</nowiki> and ''y''", "<NOWIKI>{{c}}</NOWIKI>", "<nowiki/>", "<pre>p</pre>", "<math>x^2</math>",
+              "<source lang=\"c\">s</source>", "<syntaxhighlight>s</syntaxhighlight>", "<timeline>t</timeline>", "<ref>r</ref>", "<b>x</b>",
+              "<!-- c -->", "<noinclude>x</noinclude>", "<includeonly>x</includeonly>", "[[Link]]", "[[a|b]]", "{{c}}", "{{{1}}}", "{{#if:1|y|n}}",
+              "''i''", "'''b'''", "[http://x.org t]", "\n* li", "\n== h ==\n", "{|\n| c\n|}", "~~~~", "&amp;", "&lt;nowiki&gt;"]
+ENC_STYLES = ("named", "dec", "hex", "HEX")
+ENC_CHARS = "<>[]{}'|=&!-*#:;~/\n\""
+ENC_NAMED = {"<": "lt", ">": "gt", "&": "amp", "\"": "quot"}
+
+
+def encode_char(rng, ch, style):
+    if style == "mixed":
+        style = rng.choice(ENC_STYLES + ("pad", "PADHEX"))
+    if style == "named" and ch in ENC_NAMED:
+        return "&%s;" % ENC_NAMED[ch]
+    if style == "hex":
+        return "&#x%x;" % ord(ch)
+    if style == "HEX":
+        return "&#X%X;" % ord(ch)
+    if style == "pad":
+        return "&#%04d;" % ord(ch)
+    if style == "PADHEX":
+        return "&#x%04X;" % ord(ch)
+    return "&#%d;" % ord(ch)
+
+
+def encode_markup(rng, m, style, p):
+    """m with its markup characters written as character references (each with probability p); with an rng the tag names in m
+    also get a random letter case."""
+    if rng is not None:
+        m = re.sub(r"(?<=<)[a-z]+|(?<=</)[a-z]+", lambda mo: mo.group(0).upper() if rng.random() < 0.3 else mo.group(0), m)
+    out = []
+    for ch in m:
+        if ch in ENC_CHARS and (p >= 1.0 or rng.random() < p):
+            out.append(encode_char(rng, ch, style))
+        else:
+            out.append(ch)
+    return "".join(out)
 
 
 # --------------------------------------------------------------------------- search: running + triage
@@ -235,7 +348,7 @@ def neutralise(case, what, contexts):
     return c
 
 
-def shrink(case, src, contexts, rounds=8):
+def shrink(case, src, contexts, rounds=8, kinds=("mismatch",)):
     """Batched greedy deletion (one harness process per round) keeping the mismatch."""
     body = case["body"]
     for _ in range(rounds):
@@ -249,7 +362,7 @@ def shrink(case, src, contexts, rounds=8):
             break
         cs = [make_case(j, case["tag"], case["attrs"], b, case["variant"], case["ctx"], contexts) for j, b in enumerate(cands)]
         rs = run_tree(cs, src, 4)
-        failing = [c["body"] for c, r in zip(cs, rs) if not r["ok"] and r["kind"] == "mismatch"]
+        failing = [c["body"] for c, r in zip(cs, rs) if not r["ok"] and r["kind"] in kinds]
         if not failing:
             break
         body = min(failing, key=len)
@@ -728,7 +841,7 @@ def check(run):
         else:
             seen = set()
             for c, r in lst[:3]:
-                m = shrink(c, src, contexts) if c["ctx"] in contexts else c
+                m = shrink(c, src, contexts, kinds=(r["kind"],)) if c["ctx"] in contexts else c
                 fp = "opacity:%s:%s:%s" % (m["tag"], m["ctx"], json.dumps(m["body"]))
                 if fp in seen:
                     continue
